@@ -65,17 +65,32 @@ def r04_1(chk, facts):
                     if label is False and op == '<' and K == -((-mn) // b) and P.INT_TYPES.get(tn.replace('const ', '').strip(), (0, False))[1]:
                         rej = [e for e in edge.src.succ if e.label is True]
                         if rej and returns_out_of_range(g, rej[0]): ok = True; how = '%s < %d (MIN/%d) -> out_of_range' % (v, K, b)
-                # digits10-bounded loop: cur < stop with stop = s + min(digits10, length)
-                if label is True and op == '<' and A.ref_name(r) == 'stop':
-                    d10 = None
-                    for d in A.walk_no_lambda(fn['body']):
-                        if d.get('k') == 'VarDecl' and d.get('n') == 'digits10': d10 = A.const(d.get('init'))
-                    import math
-                    if d10 is not None and b == 10 and 10 ** d10 - 1 <= mx:
-                        # stop must be defined from min(digits10, length)
-                        okstop = any(d.get('k') == 'VarDecl' and d.get('n') == 'n' and any(A.callee_name(c) == 'min' for c in A.calls_in(d.get('init'))) and
-                                     any(y.get('n') == 'digits10' for y in A.walk(d.get('init'))) for d in A.walk_no_lambda(fn['body']))
-                        if okstop: ok = True; how = 'loop bounded by digits10=%d of %s' % (d10, tn)
+                # digits10-bounded loop: the multiply runs at most D = min(digits10, length) times, 10^D - 1 <= MAX:
+                #   pointer form  `cur < stop`, cur = s, stop = s + min(D, length);  index form `i < n`, i = 0, n = min(D, length)
+                if label is True and op == '<' and b == 10 and A.ref_name(l) and not ok:
+                    al = A.pure_aliases(fn['body'], allow_const_calls=True)
+                    def resolve(e, depth=0):
+                        e2 = A.strip(e, casts=True)
+                        while e2 is not None and e2.get('k') == 'DeclRefExpr' and e2.get('id') in al and depth < 4:
+                            e2 = A.strip(al[e2['id']], casts=True); depth += 1
+                        return e2
+                    r0 = resolve(r)
+                    base = None; m = r0
+                    if r0 is not None and r0.get('k') == 'BinaryOperator' and r0.get('op') == '+':
+                        base = A.ref_name(r0.get('lhs')); m = resolve(r0.get('rhs'))
+                    D = None
+                    if m is not None and A.is_call(m) and A.callee_name(m) == 'min':
+                        cs = [A.const(a) if A.const(a) is not None else (A.const(resolve(a)) if resolve(a) is not None else None) for a in (m.get('args') or [])]
+                        cs = [c for c in cs if c is not None]
+                        if cs: D = min(cs)
+                    lid = (A.strip(l, casts=True) or {}).get('id')
+                    ldecl = next((d for d in A.walk_no_lambda(fn['body']) if d.get('k') == 'VarDecl' and d.get('id') == lid), None)
+                    start_ok = ldecl is not None and ldecl.get('init') is not None and ((base is None and A.const(ldecl['init']) == 0) or (base is not None and A.ref_name(ldecl['init']) == base))
+                    # the counter only ever moves forward by one
+                    steps_ok = all(not ((y.get('k') in ('BinaryOperator', 'CompoundAssignOperator') and y.get('op', '').endswith('=') and y.get('op') not in ('==', '!=', '<=', '>=') and (A.strip(y.get('lhs'), casts=True) or {}).get('id') == lid) or
+                                        (y.get('k') == 'UnaryOperator' and y.get('op') == '--' and (A.strip(y.get('sub'), casts=True) or {}).get('id') == lid)) for y in A.walk_no_lambda(fn['body']))
+                    if D is not None and 10 ** D - 1 <= mx and start_ok and steps_ok:
+                        ok = True; how = 'loop bounded by min(%d, length) iterations: 10^%d - 1 fits %s' % (D, D, tn)
             facts_ = {'function': fn['q'], 'line': x.get('l'), 'accumulator': v, 'type': tn, 'base': b, 'guard': how}
             if ok: chk.ok('R04.1', site, facts_)
             else:
